@@ -372,6 +372,11 @@ func (x *Exec) truncDiv(a, b Term) Term {
 }
 
 func (x *Exec) truncRem(a, b Term) Term {
+	if v, ok := smtIntValue(b.S); ok && v > 0 {
+		// positive constant divisor: floor-mod corrected for negative dividends (single mod term)
+		m := App("mod", SInt, a, b)
+		return Sub(m, Ite(And(Lt(a, IntLit(0)), Not(Eq(m, IntLit(0)))), b, IntLit(0)))
+	}
 	// a - b*truncDiv(a,b); sign follows a. For a>=0: a mod |b| ; a<0: -((-a) mod |b|)
 	return Ite(Ge(a, IntLit(0)), App("mod", SInt, a, b), App("-", SInt, App("mod", SInt, App("-", SInt, a), b)))
 }
@@ -704,7 +709,7 @@ func (x *Exec) execMakeSlice(fr *Frame, st *State, ins *ssa.MakeSlice) {
 	for i, lf := range leavesOf(et) {
 		name := "E|" + typeName(et) + "|" + lf.Name
 		arrs := x.heapGet(st, name, ArrSort(SInt, ArrSort(SInt, lf.Sort)))
-		zarr := App("(as const "+string(ArrSort(SInt, lf.Sort))+")", ArrSort(SInt, lf.Sort), zs[i])
+		zarr := x.constArray(SInt, zs[i])
 		x.heapSet(st, name, x.define("h", Store(arrs, r, zarr)))
 	}
 	fr.vals[ins] = VSlice{r, IntLit(0), l, c}
